@@ -73,6 +73,9 @@ func Scenarios(thorough bool) map[string]*Scenario {
 	// CloneSet blue-green + nginx Ingress + HPA
 	m["Q09"] = &Scenario{ID: "Q09", Kind: "CloneSet", Style: "bluegreen", Replicas: 2, Traffic: "ingress", Grace: 1, HPA: true,
 		Steps: []StepSpec{{Replicas: "100%", Traffic: "0%"}, {Replicas: "100%", Traffic: "100%"}}}
+	// native StatefulSet + nginx Ingress (Services are pinned through controller-revision-hash)
+	m["Q10t"] = &Scenario{ID: "Q10t", Kind: "StatefulSet", Style: "partition", Replicas: 3, Traffic: "ingress", Grace: 1,
+		Steps: []StepSpec{{Replicas: "1", Traffic: "20%"}, {Replicas: "2", Traffic: "50%"}, {Replicas: "3"}}}
 	// Kruise Advanced DaemonSet (3 nodes), absolute steps
 	m["Q11"] = &Scenario{ID: "Q11", Kind: "DaemonSet", Style: "partition", Replicas: 3,
 		Steps: []StepSpec{{Replicas: "1"}, {Replicas: "2"}, {Replicas: "3"}}}
@@ -160,13 +163,13 @@ func plans0(thorough bool) map[string]PropertyPlan {
 			FreeQueues: true, StateCap: capQ, Monitors: func(w *World, sc *Scenario) []Monitor { return []Monitor{StepMonitor{}} }},
 		"C11": {Scenarios: []string{"Q01", "Q01b", "Q01r", "Q05", "Q05r", "Q07", "Q08", "Q09", "Q10", "Q11"}, Actions: []string{"scaleUp", "scaleDown", "editPlanMore", "degrade", "jump(1)"}, MaxUser: u,
 			FreeQueues: true, StateCap: capQ, Monitors: func(w *World, sc *Scenario) []Monitor { return []Monitor{BatchStatusMonitor{}} }},
-		"C03": {Scenarios: []string{"Q02", "Q02d", "Q02h", "Q03d", "Q05", "Q08", "Q09", "Q30"}, Actions: []string{"jump(2)", "jump(3)", "jump(1)", "editPlanMore", "scaleUp"}, MaxUser: u,
+		"C03": {Scenarios: []string{"Q02", "Q02d", "Q02h", "Q03d", "Q05", "Q08", "Q09", "Q10t", "Q30"}, Actions: []string{"jump(2)", "jump(3)", "jump(1)", "editPlanMore", "scaleUp"}, MaxUser: u,
 			FreeQueues: true, StateCap: capQ, Monitors: func(w *World, sc *Scenario) []Monitor { return []Monitor{TrafficOrderMonitor{}} }},
-		"C04": {Scenarios: []string{"Q02", "Q02c", "Q02h", "Q02s", "Q03", "Q05", "Q05p", "Q08", "Q09", "Q30"}, Actions: []string{"rollback", "release3", "disable", "deleteRollout", "jump(2)"}, MaxUser: u, Disturbances: []string{"crash"}, MaxDisturb: 1,
+		"C04": {Scenarios: []string{"Q02", "Q02c", "Q02h", "Q02s", "Q03", "Q05", "Q05p", "Q08", "Q09", "Q10t", "Q30"}, Actions: []string{"rollback", "release3", "disable", "deleteRollout", "jump(2)"}, MaxUser: u, Disturbances: []string{"crash"}, MaxDisturb: 1,
 			FreeQueues: true, StateCap: capQ, Monitors: func(w *World, sc *Scenario) []Monitor { return []Monitor{VoidMonitor{}} }},
-		"C10": {Scenarios: []string{"Q02", "Q02h", "Q05", "Q08", "Q09"}, Actions: []string{"rollback", "release3", "jump(1)"}, NoCostActions: []string{"jump(1)"}, MaxUser: 1, Disturbances: []string{"crash", "midcrash"}, MaxDisturb: 1,
+		"C10": {Scenarios: []string{"Q02", "Q02h", "Q05", "Q08", "Q09", "Q10t"}, Actions: []string{"rollback", "release3", "jump(1)"}, NoCostActions: []string{"jump(1)"}, MaxUser: 1, Disturbances: []string{"crash", "midcrash"}, MaxDisturb: 1,
 			FreeQueues: true, StateCap: capQ, Monitors: func(w *World, sc *Scenario) []Monitor { return []Monitor{RollbackOrderMonitor{}} }},
-		"C05": {Scenarios: []string{"Q02", "Q01b", "Q03", "Q05", "Q07", "Q07r", "Q08", "Q09", "Q10", "Q11", "Q31"}, Actions: []string{"rollback", "release3", "disable", "deleteRollout", "editPlanMore", "deleteCanary", "deleteVS"}, MaxUser: u,
+		"C05": {Scenarios: []string{"Q02", "Q01b", "Q03", "Q05", "Q07", "Q07r", "Q08", "Q09", "Q10", "Q10t", "Q11", "Q31"}, Actions: []string{"rollback", "release3", "disable", "deleteRollout", "editPlanMore", "deleteCanary", "deleteVS"}, MaxUser: u,
 			FreeQueues: true, StateCap: capQ, Monitors: func(w *World, sc *Scenario) []Monitor { return []Monitor{&ExitMonitor{Base: CaptureBaseline(w, sc)}} }},
 		"C18": {Scenarios: []string{"Q02", "Q01b", "Q05", "Q09", "Q20", "Q22", "Q30"}, Actions: []string{"deleteRollout", "deleteWorkload", "deleteTR"}, MaxUser: 2, Disturbances: []string{"crash", "midcrash", "error"}, MaxDisturb: 1,
 			FreeQueues: true, StateCap: capQ, Monitors: func(w *World, sc *Scenario) []Monitor {
